@@ -12,6 +12,13 @@ set_option linter.unusedSimpArgs false
 namespace RV.Units
 open RV
 
+/-- exact instance: any field, the power is the ring power -/
+instance exactP {K : Type} [Field K] : ScalarP K where
+  toScalar := fieldScalar
+  powi a n := a ^ n
+
+@[simp] theorem p_powi {K : Type} [Field K] (a : K) (n : Nat) : ScalarP.powi a n = a ^ n := rfl
+
 /-! ### reading the generated tables -/
 
 /-- value of a table row `(name, numerator, denominator)` -/
